@@ -448,10 +448,55 @@ func c03Case(c *vlib.Case, run *vlib.Run, env *pmmvEnv, cfg *pmmvConfig, mode st
 	return s, "ok"
 }
 
+// c03SizingBoundaryCfg draws 2-8 available regions with odd frame counts whose bookkeeping (one pool record each and
+// one bitmap word per 64 frames, rounded up per pool) ends 8 bytes past a page multiple: any shortfall in the
+// size Init asks for, even by one word, costs a whole page and shows as bookkeeping-undersized.
+func c03SizingBoundaryCfg(r *vlib.Rand) *pmmvConfig {
+	p := r.Range(2, 8)
+	words := make([]uint64, p)
+	sum := uint64(p) * pmmvSizeofPool / 8
+	for i := 0; i < p-1; i++ {
+		words[i] = uint64(r.Range(1, 40))
+		sum += words[i]
+	}
+	words[p-1] = (512 + 1 - sum%512) % 512
+	if words[p-1] == 0 {
+		words[p-1] = 512
+	}
+	if r.Intn(3) == 0 {
+		words[p-1] += 512
+	}
+	// the large pool goes to a random position
+	j := r.Intn(p)
+	words[j], words[p-1] = words[p-1], words[j]
+	cfg := &pmmvConfig{KMode: "start", Style: "sizing-boundary", Decoys: r.Intn(3)}
+	cursor := uint64(0x100000)
+	for i := 0; i < p; i++ {
+		n := 64*(words[i]-1) + uint64(r.Range(1, 64))
+		if r.Intn(3) == 0 {
+			n = 64*(words[i]-1) + 1
+		}
+		cfg.Regions = append(cfg.Regions, pmmvRegion{Addr: cursor, Len: n * pmmvPage, Type: 1})
+		cursor += n * pmmvPage
+		switch r.Intn(3) {
+		case 0:
+			l := uint64(r.Range(1, 5)) * pmmvPage
+			cfg.Regions = append(cfg.Regions, pmmvRegion{Addr: cursor, Len: l, Type: 2})
+			cursor += l
+		case 1:
+			cursor += uint64(r.Range(1, 5)) * pmmvPage
+		}
+	}
+	cfg.KRegion = 0
+	cfg.KStart = cfg.Regions[0].Addr
+	cfg.KEnd = cfg.KStart + 0x800
+	return cfg
+}
+
 func TestVerifC03(t *testing.T) {
 	run := vlib.Start(t, "C03")
 	defer run.Finish()
-	run.SetRule("case = generated memory map + kernel placement (generator shared with C01; in half of the cases every available region has a word-boundary frame count 1,2,63,64,65,127,128,129,191,192,193,64k-1,64k,64k+1) + mode (normal | reserveRegionFn fails | mapFn fails on call 0-2 | one region of 2^20..2^31 frames with a failing reservation, sizing only); normal mode: layout and sizing check, bad frees (frame 0, InvalidFrame, gaps, non-available regions, partial pages, just before/past each pool, padding bits, never-allocated and twice-freed frames) with a full bitmap snapshot around each, partial allocation, drain to OOM, free of subsets and re-drain, accounting compared after every step; non-trivial = Init succeeded, >=2 available regions with whole frames, >=1 word-boundary region, drain reached OOM and >=1 re-drain was compared; distinct = fingerprint of (memory map, kernel placement, mode)")
+	run.SetRule("case = generated memory map + kernel placement (generator shared with C01; in half of the cases every available region has a word-boundary frame count 1,2,63,64,65,127,128,129,191,192,193,64k-1,64k,64k+1) + mode (normal | reserveRegionFn fails | mapFn fails on call 0-2 | one region of 2^20..2^31 frames with a failing reservation, sizing only); 1 case in 30 is a sizing-boundary map: 2-8 pools with odd frame counts whose bookkeeping ends 8 bytes past a page multiple; normal mode: layout and sizing check, bad frees (frame 0, InvalidFrame, gaps, non-available regions, partial pages, just before/past each pool, padding bits, never-allocated and twice-freed frames) with a full bitmap snapshot around each, partial allocation, drain to OOM, free of subsets and re-drain, accounting compared after every step; non-trivial = Init succeeded, >=2 available regions with whole frames, >=1 word-boundary region, drain reached OOM and >=1 re-drain was compared; distinct = fingerprint of (memory map, kernel placement, mode)")
 	run.Assume("mapFn and reserveRegionFn are stubbed; the bookkeeping memory is a guard-paged host arena of exactly the requested (page-rounded) size, so over-runs are caught at page granularity and by the layout check at byte granularity")
 	run.Assume("frames reserved at hand-over (kernel image, early-boot frames) are never passed to FreeFrame: the statement leaves that undefined; which of the two errors a rejected free returns is counted, not demanded")
 
@@ -512,6 +557,9 @@ func TestVerifC03(t *testing.T) {
 		}
 		big := r.Intn(25) == 0
 		cfg := pmmvGenConfig(r.Fork(1), pmmvGenOpts{MaxFrames: mf, Big: big, ForceBoundary: r.Intn(2) == 0, Huge: mode == "huge"})
+		if mode != "huge" && r.Intn(30) == 0 {
+			cfg = c03SizingBoundaryCfg(r.Fork(3))
+		}
 		one(c, cfg, mode, r.Fork(2))
 	})
 
